@@ -23,9 +23,10 @@ VARIABLES l, run, conf, acc, inflight, naccepted, nconfirmed, segs, man, gcBefor
           segc,   \* segment id -> its content as key -> RV (merge of the segment's deltas per key), when it was logged
           cin,    \* ids of the segments the compaction in progress has read
           gcOut,  \* keys whose expired tombstone a compaction dropped while a manifest segment it did not read held the key
+          ckk,    \* keys held by the checkpoint written last (a checkpoint is outside every compaction)
           rc      \* bookkeeping for the listed manifest race: [saves: manifest saves so far, loaded: actor -> saves at its last manifest
                   \* load, puts: segment id -> the actor that wrote it]; `overlap' is set only when the race really happens
-tvars == <<l, run, conf, acc, inflight, naccepted, nconfirmed, segs, man, gcBefore, overlap, fActive, cActive, accTombs, segc, cin, gcOut, rc>>
+tvars == <<l, run, conf, acc, inflight, naccepted, nconfirmed, segs, man, gcBefore, overlap, fActive, cActive, accTombs, segc, cin, gcOut, rc, ckk>>
 
 Dev(d) == d \in AsBuilt
 Verdict(what) == PrintT(<<"VERDICT", ToJson([run |-> run, l |-> l, v |-> "bad", what |-> what])>>)
@@ -40,7 +41,7 @@ MergeAll(f, g) == [k \in DOMAIN f \cup DOMAIN g |->
 TraceInit == /\ l = 1 /\ run = 0 /\ conf = NoFun /\ acc = NoFun /\ inflight = NoFun
              /\ naccepted = 0 /\ nconfirmed = 0 /\ segs = NoFun /\ man = {} /\ gcBefore = 0
              /\ overlap = FALSE /\ fActive = FALSE /\ cActive = FALSE /\ accTombs = NoFun /\ segc = NoFun /\ cin = {} /\ gcOut = {}
-             /\ rc = [saves |-> 0, loaded |-> NoFun, puts |-> NoFun]
+             /\ rc = [saves |-> 0, loaded |-> NoFun, puts |-> NoFun] /\ ckk = {}
 
 Keep(vs) == UNCHANGED vs
 
@@ -79,7 +80,7 @@ Step(ev) ==
   \/ /\ ev.a = "reset"
      /\ run' = ev.run /\ conf' = NoFun /\ acc' = NoFun /\ inflight' = NoFun /\ naccepted' = 0 /\ nconfirmed' = 0
      /\ segs' = NoFun /\ man' = {} /\ gcBefore' = 0 /\ overlap' = FALSE /\ fActive' = FALSE /\ cActive' = FALSE
-     /\ accTombs' = NoFun /\ segc' = NoFun /\ cin' = {} /\ gcOut' = {} /\ rc' = [saves |-> 0, loaded |-> NoFun, puts |-> NoFun]
+     /\ accTombs' = NoFun /\ segc' = NoFun /\ cin' = {} /\ gcOut' = {} /\ rc' = [saves |-> 0, loaded |-> NoFun, puts |-> NoFun] /\ ckk' = {}
   \/ /\ ev.a = "push"
      /\ IF ev.ok THEN /\ acc' = MergeInto(acc, ev.k, JRv(ev.rv))
                       /\ inflight' = MergeInto(inflight, ev.k, JRv(ev.rv))
@@ -88,28 +89,28 @@ Step(ev) ==
                                       THEN Upd(accTombs, ev.k, (IF ev.k \in DOMAIN accTombs THEN accTombs[ev.k] ELSE {}) \cup {JRv(ev.rv).ts})
                                       ELSE accTombs
         ELSE UNCHANGED <<acc, inflight, naccepted, accTombs>>
-     /\ Keep(<<run, conf, nconfirmed, segs, man, gcBefore, overlap, fActive, cActive, segc, cin, gcOut, rc>>)
+     /\ Keep(<<run, conf, nconfirmed, segs, man, gcBefore, overlap, fActive, cActive, segc, cin, gcOut, rc, ckk>>)
   \/ /\ ev.a = "flush_begin"
      /\ fActive' = TRUE /\ overlap' = overlap
-     /\ Keep(<<run, conf, acc, inflight, naccepted, nconfirmed, segs, man, gcBefore, cActive, accTombs, segc, cin, gcOut, rc>>)
+     /\ Keep(<<run, conf, acc, inflight, naccepted, nconfirmed, segs, man, gcBefore, cActive, accTombs, segc, cin, gcOut, rc, ckk>>)
   \/ /\ ev.a = "flush_end"
      /\ fActive' = FALSE
      /\ IF ev.ok THEN /\ conf' = MergeAll(conf, inflight) /\ inflight' = NoFun /\ nconfirmed' = naccepted
                       /\ (ev.pending # 0 => Verdict("flush ok but deltas still pending"))
         ELSE /\ UNCHANGED <<conf, inflight, nconfirmed>>
              /\ (ev.pending # naccepted - nconfirmed => Verdict("failed flush silently dropped accepted deltas"))
-     /\ Keep(<<run, acc, naccepted, segs, man, gcBefore, overlap, cActive, accTombs, segc, cin, gcOut, rc>>)
+     /\ Keep(<<run, acc, naccepted, segs, man, gcBefore, overlap, cActive, accTombs, segc, cin, gcOut, rc, ckk>>)
   \/ /\ ev.a = "shutdown"     \* the pipeline (sink -> bridge -> actor) was shut down gracefully; clean: no fault was injected in the run
      /\ IF ev.clean THEN conf' = MergeAll(conf, inflight) /\ inflight' = NoFun /\ nconfirmed' = naccepted
         ELSE UNCHANGED <<conf, inflight, nconfirmed>>
-     /\ Keep(<<run, acc, naccepted, segs, man, gcBefore, overlap, fActive, cActive, accTombs, segc, cin, gcOut, rc>>)
+     /\ Keep(<<run, acc, naccepted, segs, man, gcBefore, overlap, fActive, cActive, accTombs, segc, cin, gcOut, rc, ckk>>)
   \/ /\ ev.a = "compact_begin"
      /\ cActive' = TRUE /\ overlap' = overlap
      /\ gcBefore' = IF ev.gc_before > gcBefore THEN ev.gc_before ELSE gcBefore
-     /\ cin' = {} /\ Keep(<<run, conf, acc, inflight, naccepted, nconfirmed, segs, man, fActive, accTombs, segc, gcOut, rc>>)
+     /\ cin' = {} /\ Keep(<<run, conf, acc, inflight, naccepted, nconfirmed, segs, man, fActive, accTombs, segc, gcOut, rc, ckk>>)
   \/ /\ ev.a = "compact_end"
      /\ cActive' = FALSE
-     /\ Keep(<<run, conf, acc, inflight, naccepted, nconfirmed, segs, man, gcBefore, overlap, fActive, accTombs, segc, cin, gcOut, rc>>)
+     /\ Keep(<<run, conf, acc, inflight, naccepted, nconfirmed, segs, man, gcBefore, overlap, fActive, accTombs, segc, cin, gcOut, rc, ckk>>)
   \/ /\ ev.a = "call"
      /\ segs' = IF ev.op = "put" /\ ev.kind = "seg" /\ ev.res # "fail"
                   THEN Upd(segs, ev.id, IF ev.res = "ok" THEN "ok" ELSE "partial")
@@ -125,8 +126,10 @@ Step(ev) ==
            => Verdict("the segment written by a compaction is not the merge of the segments it read (beyond dropping expired tombstones)"))
      /\ gcOut' = IF ev.who = "C" /\ ev.op = "put" /\ ev.kind = "seg" /\ ev.res = "ok" /\ "deltas" \in DOMAIN ev /\ cin \subseteq DOMAIN segc
                  THEN gcOut \cup {k \in DOMAIN MergeSegs(cin, NoFun) \ DOMAIN SegContent(ev.deltas) :
-                                   \E i \in (man \ cin) \cap DOMAIN segc : k \in DOMAIN segc[i]}
+                                   \/ \E i \in (man \ cin) \cap DOMAIN segc : k \in DOMAIN segc[i]
+                                   \/ k \in ckk}          \* ... or the checkpoint holds the key (same root cause, same listed finding)
                  ELSE gcOut
+     /\ ckk' = IF ev.op = "put" /\ ev.kind = "ckpt" /\ ev.res = "ok" /\ "ckeys" \in DOMAIN ev THEN Range(ev.ckeys) ELSE ckk
      (* the listed race (no compare-and-set on the manifest, segment ids allocated from stale copies) has happened when somebody   *)
      (* saves a manifest it loaded before somebody else's save, or writes a segment key the other one has written (either can only  *)
      (* happen when a flush and a compaction overlapped); overlapping alone explains nothing                                        *)
@@ -148,14 +151,14 @@ Step(ev) ==
         ELSE IF ~CrashOk(ev) THEN Verdict(IF "final" \in DOMAIN ev THEN "extension: after a graceful shutdown of the persistence pipeline an update that was sent is not recoverable (or data was invented)"
                                           ELSE "recovered state loses confirmed data or invents data")
         ELSE TRUE
-     /\ Keep(<<run, conf, acc, inflight, naccepted, nconfirmed, segs, man, gcBefore, overlap, fActive, cActive, accTombs, segc, cin, gcOut, rc>>)
+     /\ Keep(<<run, conf, acc, inflight, naccepted, nconfirmed, segs, man, gcBefore, overlap, fActive, cActive, accTombs, segc, cin, gcOut, rc, ckk>>)
   \/ /\ ev.a = "panic"
      /\ Verdict("panic in code under test")
-     /\ Keep(<<run, conf, acc, inflight, naccepted, nconfirmed, segs, man, gcBefore, overlap, fActive, cActive, accTombs, segc, cin, gcOut, rc>>)
+     /\ Keep(<<run, conf, acc, inflight, naccepted, nconfirmed, segs, man, gcBefore, overlap, fActive, cActive, accTombs, segc, cin, gcOut, rc, ckk>>)
 
 TraceNext ==
   \/ l <= Len(Rec) /\ Step(Rec[l]) /\ l' = l + 1
   \/ l = Len(Rec) + 1 /\ PrintT(<<"VALIDATED", Len(Rec)>>) /\ l' = l + 1
-     /\ Keep(<<run, conf, acc, inflight, naccepted, nconfirmed, segs, man, gcBefore, overlap, fActive, cActive, accTombs, segc, cin, gcOut, rc>>)
+     /\ Keep(<<run, conf, acc, inflight, naccepted, nconfirmed, segs, man, gcBefore, overlap, fActive, cActive, accTombs, segc, cin, gcOut, rc, ckk>>)
 TraceSpec == TraceInit /\ [][TraceNext]_tvars
 =============================================================================
